@@ -201,7 +201,9 @@ func c16Run(entry string, ok0, ok1, stub0, stub1 bool, events []string) string {
 	ms := [2]*c16Member{}
 	for i := range ms {
 		ms[i] = &c16Member{idx: i, gate: make(chan struct{}), started: make(chan struct{}), returned: make(chan struct{}),
-			err: fmt.Errorf("member %d failed", i)}
+			// a member's own failure may well be a timeout of its own (an http.Client with a Timeout, a
+			// context it derived): that is the member failing, not the caller giving up
+			err: fmt.Errorf("member %d failed: its own deadline passed: %w", i, context.DeadlineExceeded)}
 	}
 	ms[0].ok, ms[1].ok, ms[0].stub, ms[1].stub = ok0, ok1, stub0, stub1
 	baseline := c16Goroutines() // goroutines an earlier, broken scenario may have left behind
